@@ -28,6 +28,7 @@ THEOREMS = [
     "RedunModel.C32.reunite_same_hash",
     "RedunModel.C32.element_records_in_own_files",
     "RedunModel.C32.own_files_are_not_spec_files",
+    "RedunModel.C32.rerun_failure_leaves_no_output",
     "RedunModel.C32.reunited_is_inflight_same_hash",
     "RedunModel.C32.finished_namesake_not_reunited",
 ]
@@ -57,7 +58,12 @@ RULE = ("(names) generated prefix/hash/array triples -> get_batch_job_name, get_
         "called (script import error on that worker, corrupt code package at that moment, unknown task name): the failure must "
         "be recorded in that element's own error file, the four shared spec files must be byte-identical before and after every "
         "element, every other element must still equal the local call, and the written file is compared with model oneshotOps; "
-        "(gather) generated "
+        "(history) the same job run twice through oneshot (single "
+        "and array): the first run leaves an output holding a File, then the File is or is not changed and the task does or does "
+        "not raise; after the second run the result must equal the local call (or the still valid earlier output), a failed "
+        "re-run must leave an error file and NO output file, docker.iter_job_status (docker CLI stubbed) and "
+        "AWSBatchExecutor._can_override_failed must infer the local outcome, and file presence is compared with model "
+        "oneshotRerunOps; (gather) generated "
         "in-flight job lists (single, array with/without eval file, unrelated, duplicates, out-of-range child index) on a "
         "real AWSBatchExecutor with faked Batch listing: preexisting_batch_jobs vs model, then _submit's reunite branch: "
         "pending_batch_jobs vs model and vs the ground truth of which eval hash each Batch job was created for; (queue) the same "
@@ -76,7 +82,8 @@ LEVEL_TEXT = ("Proved in Lean (full strength, every prefix/hash/list/index): get
               "array_projection_out_of_range); paths of different eval hashes and output vs error are pairwise distinct "
               "(job_paths_injective, element_paths_distinct); whatever the point at which an element fails (code package, script import, "
               "task lookup, task body) it only touches job i's own error/output file, records the failure in its own error file, "
-              "and those files are never a shared spec file (element_records_in_own_files, own_files_are_not_spec_files); the eval-hash file round trips (eval_file_roundtrip); every "
+              "and those files are never a shared spec file (element_records_in_own_files, own_files_are_not_spec_files); a re-run under the default cache scope whose earlier output is "
+              "missing or invalid and whose task raises leaves no output file and an error file (rerun_failure_leaves_no_output); the eval-hash file round trips (eval_file_roundtrip); every "
               "binding gather_inflight_jobs produces, and therefore every job _submit reunites with, is a Batch job whose "
               "name (single) or eval-hash file line at its array index (array child) carries that very eval hash "
               "(gather_sound, reunite_same_hash); against a queue that still lists finished jobs, a job is attached only to a job or array "
@@ -743,6 +750,140 @@ def check_pretask(ctx, n_arrays, tmp, moddir):
     batch.flush(ctx)
 
 
+# ------------------------------------------------------------------ two-step histories: an earlier output exists
+HIST_SRC = """
+import os
+
+from redun import File, task
+
+
+@task()
+def total(src, flag):
+    if os.path.exists(flag):
+        raise ValueError("cannot recompute", open(flag).read())
+    data = File(src).read()
+    return {"src": File(src), "n": len(data)}
+"""
+
+
+def canon_outcome(o):
+    if o[0] == "ok" and isinstance(o[1], dict) and "src" in o[1]:
+        return ("ok", o[1]["n"], o[1]["src"].path, o[1]["src"].hash)
+    if o[0] == "err":
+        return ("err", type(o[1]).__name__, repr(getattr(o[1], "args", None)))
+    return (o[0], repr(o[1]))
+
+
+def check_histories(ctx, n_hist, tmp, moddir):
+    """Run the same job twice through oneshot: the first run succeeds and leaves an output holding a File; then the File
+    is (or is not) changed and the task does (or does not) raise; afterwards the scratch files and the executors' status
+    inference (docker.iter_job_status, AWSBatchExecutor._can_override_failed) must say what the local call says."""
+    from redun.cli import RedunClient
+    from redun.config import Config
+    from redun.executors import aws_batch, docker
+    from redun.executors.aws_batch import DOCKER_INSPECT_ERROR, AWSBatchExecutor
+    from redun.executors.command import get_oneshot_command
+    from redun.executors.scratch import (SCRATCH_ERROR, SCRATCH_OUTPUT, get_job_scratch_file, write_array_job_scratch_files)
+    from redun.scheduler import Job
+    rng = ctx.rng
+    modname = "verif_c32_hist"
+    with open(os.path.join(moddir, modname + ".py"), "w") as f:
+        f.write(HIST_SRC)
+    sys.modules.pop(modname, None)
+    H = __import__(modname)
+    client = RedunClient()
+    batch = Batch()
+    variants = ["invalid-raise", "invalid-raise", "invalid-ok", "valid", "valid-flag"]
+    for g in range(n_hist):
+        variant = "invalid-raise" if g == 0 else rng.choice(variants)
+        array = g % 2 == 1
+        base = os.path.join(tmp, "hist%d" % g)
+        scratch = os.path.join(base, rng.choice(["s", "s/", "scratch dir"]))
+        os.makedirs(base)
+        src, flag = os.path.join(base, "data.txt"), os.path.join(base, "flag")
+        open(src, "w").write("1 2 3\n")
+        hashes = [gen_hex(rng, 40), gen_hex(rng, 40)]
+        jobs = []
+        for k, h in enumerate(hashes):
+            sk = src if k == 0 else os.path.join(base, "other.txt")
+            if k:
+                open(sk, "w").write("9\n")
+            j = Job(H.total, H.total(sk, flag))
+            j.eval_hash, j.args = h, ((sk, flag), {})
+            jobs.append(j)
+        job = jobs[0]
+        array_id = gen_hex(rng, 32)
+        var = rng.choice(ARRAY_VARS)
+
+        def run_once():
+            if array:
+                write_array_job_scratch_files(jobs, scratch, array_id)
+                cmd = get_oneshot_command(scratch, job, H.total, array_uuid=array_id)
+            else:
+                cmd = get_oneshot_command(scratch, job, H.total, job.args[0], job.args[1])
+            with mock.patch.dict(os.environ, {var: "0"} if array else {}):
+                return remote_outcome(client, cmd, scratch, job)
+        out_path = get_job_scratch_file(scratch, job, SCRATCH_OUTPUT)
+        err_path = get_job_scratch_file(scratch, job, SCRATCH_ERROR)
+        case = {"kind": "history", "variant": variant, "array": array}
+        first, raised1 = run_once()
+        local1 = local_outcome(H.total, (src, flag), {})
+        if canon_outcome(first) != canon_outcome(local1) or not os.path.exists(out_path):
+            ctx.violation("C32-single-job-result", "first oneshot run differs from the local call", case=case, expected=canon_outcome(local1),
+                          actual=canon_outcome(first))
+            continue
+        # ---- between the runs
+        if variant.startswith("invalid"):
+            open(src, "w").write("1 2 3 4 5 6 7 8 9 10 11\n")       # the File inside the old output is no longer valid
+        if variant in ("invalid-raise", "valid-flag"):
+            open(flag, "w").write("upstream data withdrawn")
+        out_before, err_before = os.path.exists(out_path), os.path.exists(err_path)
+        second, raised2 = run_once()
+        if variant in ("valid", "valid-flag"):
+            # a still valid output of the same eval hash is reused by design: the task is not called again
+            want, existing, stage = first, "T", "none"
+        else:
+            want = local_outcome(H.total, (src, flag), {})
+            existing, stage = "F", ("none" if want[0] == "ok" else "task")
+        out_after, err_after = os.path.exists(out_path), os.path.exists(err_path)
+        ctx.case(key=("history", g, variant, array), sample={"variant": variant, "array": array}, kind="history", variant=variant, array_job=array,
+                 outcome=canon_outcome(second)[0])
+        hcase = dict(case, first=canon_outcome(first), scratch_files_after={"output": out_after, "error": err_after})
+        if canon_outcome(second) != canon_outcome(want):
+            ctx.violation("C32-rerun-result", "second oneshot run of the same job differs from the local call", case=hcase,
+                          expected=canon_outcome(want), actual=canon_outcome(second))
+        if want[0] == "err" and out_after:
+            ctx.violation("C32-stale-output-after-failed-rerun", "the re-run task raised but the earlier, no longer valid output file is "
+                          "still in the scratch directory next to the error file", case=hcase, expected="no output file", actual="output file present")
+        # ---- executor-side status inference
+        with mock.patch.object(docker.subprocess, "check_output", side_effect=lambda argv, *a, **k: b""):
+            st = [x["status"] for x in docker.iter_job_status(scratch, {"container-1": job})]
+        if st != [docker.SUCCEEDED if want[0] == "ok" else docker.FAILED]:
+            ctx.violation("C32-status-inference-disagrees", "docker.iter_job_status infers another status from the scratch directory than "
+                          "the local call has", case=hcase, expected="SUCCEEDED" if want[0] == "ok" else "FAILED", actual=st)
+        config = Config({"batch": {"image": "img", "queue": "q", "s3_scratch": scratch, "code_package": False, "aws_region": "us-west-2"}})
+        ex = AWSBatchExecutor("batch", None, config["batch"])
+        ex.pending_batch_jobs["batch-1"] = job
+        can, _reason = ex._can_override_failed({"jobId": "batch-1", "attempts": [{"container": {"reason": DOCKER_INSPECT_ERROR + " (x)"}}]})
+        if bool(can) != (want[0] == "ok"):
+            ctx.violation("C32-status-inference-disagrees", "AWSBatchExecutor._can_override_failed would turn a failed re-run into SUCCEEDED "
+                          "(or not accept a successful one)", case=hcase, expected=want[0] == "ok", actual=bool(can))
+
+        def cmp_rerun(mo, out_before=out_before, err_before=err_before, out_after=out_after, err_after=err_after, hcase=hcase,
+                      out_path=out_path, err_path=err_path):
+            present = {out_path: out_before, err_path: err_before}
+            for op in unsx(mo)[0]:
+                present[op[1]] = str(op[0]) != "remove"
+            m = {"output": present.get(out_path), "error": present.get(err_path)}
+            impl = {"output": out_after, "error": err_after}
+            if m != impl:
+                ctx.mismatch("scratch files after a re-run differ from model oneshotRerunOps", case=hcase, model=m, impl=impl)
+        batch.add("rerun %s %s i0 T %s %s" % (sx(scratch), sx(hashes if array else hashes[:1]), existing, stage), cmp_rerun)
+        shutil.rmtree(base, ignore_errors=True)
+    sys.modules.pop(modname, None)
+    batch.flush(ctx)
+
+
 # ------------------------------------------------------------------ reuniting against a queue with jobs in every status
 ALL_STATUSES = ["SUBMITTED", "PENDING", "RUNNABLE", "STARTING", "RUNNING", "SUCCEEDED", "FAILED"]
 INFLIGHT = ALL_STATUSES[:5]
@@ -929,6 +1070,7 @@ def run(ctx):
         check_arrays(ctx, T, ctx.n(40, 1500), tmp)
         check_singles(ctx, T, ctx.n(150, 5000), tmp)
         check_pretask(ctx, ctx.n(12, 400), tmp, moddir)
+        check_histories(ctx, ctx.n(16, 600), tmp, moddir)
         check_gather(ctx, T, ctx.n(40, 1500), tmp)
         check_queue(ctx, T, ctx.n(60, 1500), tmp)
     finally:
